@@ -10,6 +10,7 @@
 #include "../utility/FixedArrayView.h"
 #include "../utility/OwnedArray.h"
 
+#include <type_traits>
 #include <vector>
 
 namespace rkcommon {
@@ -102,9 +103,20 @@ namespace rkcommon {
       std::shared_ptr<utility::FixedArray<uint8_t>> buffer;
     };
 
+    namespace detail {
+      // NOTE: array wrappers (ArrayView, OwnedArray, ...) are written by the
+      //       AbstractArray<T> operator below, not as raw data blocks
+      template <typename T>
+      std::true_type isAbstractArray(const utility::AbstractArray<T> *);
+      std::false_type isAbstractArray(...);
+    }  // namespace detail
+
     /*! generic stream operators into/out of streams, for raw data blocks */
     template <typename T>
-    inline WriteStream &operator<<(WriteStream &buf, const T &rh)
+    inline typename std::enable_if<
+        !decltype(detail::isAbstractArray((const T *)nullptr))::value,
+        WriteStream &>::type
+    operator<<(WriteStream &buf, const T &rh)
     {
       buf.write((const byte_t *)&rh, sizeof(T));
       return buf;
